@@ -49,6 +49,8 @@ def build(tier, work, builder):
     # checkType: case RANGE
     ct = X.function(src, "TypeChecker::checkType", r"^void TypeChecker::checkType\(type_t type, bool initialisable, bool inStruct\)")
     rg = X.switch_clause(src, "checkType:case RANGE", ct, "RANGE")
+    X.hoist_enclosing_lambdas(src, ct, rg)
+    X.lower_local_lambdas(rg)
     T.lower_literals(rg)
     rg.sub("lower:std::tie(l,u)=get_range()", r"std::tie\(l, u\) = type\.get_range\(\);", "l = verif_range_lo(type); u = verif_range_hi(type);", required=True)
     rg.sub("L12b:isCompileTimeComputable->contract", r"\bisCompileTimeComputable\(", "isCompileTimeComputable__contract(", required=True)
@@ -95,12 +97,27 @@ def build(tier, work, builder):
     cd.sub("L17:std::set<symbol_t>->bitmask", r"std::set<symbol_t>", "verif_symset", required=True)
     cd.sub("L12b:collect_possible_reads->contract", r"\.collect_possible_reads\(", ".collect_possible_reads__contract(", required=True)
     write(work, "collect_deps.inc", cd.text + "\n")
+    # the propagation of `restricted` through an instantiation (DocumentBuilder::instantiation_end): the declaration of the
+    # local set reference and the loop after it
+    dbs = X.Source("src/DocumentBuilder.cpp")
+    ie = X.function(dbs, "DocumentBuilder::instantiation_end", r"^void DocumentBuilder::instantiation_end\(const char\* name, size_t parameters, const char\* templ_name, size_t arguments\)")
+    s0, _ = dbs.find_unique(r"^\s*(?:const\s+)?std::set<symbol_t>&\s*restricted\s*=", ie.start, ie.end, what="instantiation_end: the restricted set taken as the source")
+    lp = X.statement(dbs, "instantiation_end: propagation loop", r"for \(size_t i = 0; i < expected; i\+\+\)", (s0, ie.end))
+    pr = X.Slice("DocumentBuilder::instantiation_end (propagation of restricted)", dbs, s0, lp.end)
+    pr.sub("L17:std::set<symbol_t>->bitmask", r"std::set<symbol_t>", "verif_symset", required=True)
+    pr.sub("L12b:collectDependencies->contract (its closure property is c13_collect_dependencies)", r"\bcollectDependencies\(", "collectDependencies__contract(", required=True)
+    write(work, "restricted_propagation.inc", "void StatementBuilder::propagate_restricted(instance_t* old_instance, instance_t& new_instance, expression_t* exprs, size_t expected)\n{\n" + pr.text + "\n}\n")
+    slices.append(pr)
     slices.append(cd)
     cdobj = builder.cc(os.path.join(CDIR, "cd13.cpp"), includes=[work, os.path.join(X.REPO, "include")], cpp=True)
     hcd = builder.cc(os.path.join(CDIR, "h_cd13.c"), includes=[work])
     jobs.append(F.Job("c13_collect_dependencies", "h_c13_collect_dependencies", [cdobj, hcd], timeout=600, unwind=24, level="bounded",
                       functions=["StatementBuilder::collectDependencies(std::set<symbol_t>&, expression_t)"],
                       bound_note="universe of 4 symbols: the worklist loop is unwound 24 times with an unwinding assertion (complete for 4 symbols, not for more)"))
+    jobs.append(F.Job("c13_restricted_propagation", "h_c13_restricted_propagation", [cdobj, hcd], unwind=8,
+                      functions=["DocumentBuilder::instantiation_end (propagation of the restricted set to the new instance)"],
+                      bound_note="<= 3 parameters, universe of 4 symbols",
+                      note="the variables used in arguments to restricted parameters of the INSTANTIATED INSTANCE (not of its template) are restricted in the new instance"))
     # ---- checkType as a whole over real type trees (bounded shapes)
     from checks import type_common as TY
     tcl = TY.type_class(); write(work, "type_class.inc", tcl.text)
@@ -108,6 +125,7 @@ def build(tier, work, builder):
     ms = TY.type_members(l12=())
     write(work, "type_members_real.inc", "\n".join(s.text for s in ms) + "\n")
     ctw = X.function(src, "TypeChecker::checkType (whole)", r"^void TypeChecker::checkType\(type_t type, bool initialisable, bool inStruct\)")
+    X.lower_local_lambdas(ctw)
     T.lower_literals(ctw)
     ctw.sub("lower:std::tie(l,u)=get_range()", r"std::tie\(l, u\) = type\.get_range\(\);",
             "{ std::pair<expression_t, expression_t> verif_r = type.get_range(); l = verif_r.first; u = verif_r.second; }")
